@@ -163,6 +163,8 @@ func (config Config) New(session *packet.Session) (h *Handler, err error) {
 
 // Close free up internal resouces.
 func (h *Handler) Close() error {
+	h.Lock() // Close may be called from more than one goroutine (e.g. a signal handler and a deferred cleanup)
+	defer h.Unlock()
 	if h.closed {
 		return nil
 	}
